@@ -41,6 +41,7 @@ class Ctx:
         self.queries = 0
         self.solver_s = 0.0
         self.undecided = 0
+        self.inconclusive = []  # reasons why this path can neither pass nor alarm (e.g. CTI without reachable witness)
         self.deltas = {}  # float error model: (op, a, b) -> delta var
         self.float_model = "R"
 
@@ -778,6 +779,11 @@ def region(name, cond):
 
 def note(key, value):
     CTX.notes[key] = value
+
+
+def inconclusive(reason):
+    """This path is neither a pass nor an alarm (e.g. a counterexample-to-induction from a state no schedule reaches)."""
+    CTX.inconclusive.append(reason)
 
 
 def ite(cond, a, b):
